@@ -128,6 +128,12 @@ class CInt:
             return e[1]
         if k == 'zero':
             return 0
+        if k == 'enum':
+            if e in self.atoms:
+                return self.atoms[e]
+            if e[1] in self.P.enums:
+                return self.P.enums[e[1]]
+            raise NoEval('enumerator %s' % e[1])
         if k == 'param':
             if e[2] in self.params:
                 return self.params[e[2]]
@@ -139,6 +145,12 @@ class CInt:
             if key in self.atoms:
                 return self.atoms[key]
             raise NoEval('local %s has no value' % e[1])
+        if k in ('arrow', 'dot', 'idx') or (k == 'un' and e[1] == '*'):
+            ep = self.elem_lvalue(e)
+            if ep is not None:
+                if ep in self.atoms:
+                    return self.atoms[ep]
+                raise NoEval('no value for element %r' % (ep,))
         if k in ('arrow', 'dot', 'idx', 'global') or (k == 'un' and e[1] == '*'):
             key = self.atom_key(e)
             if key[0] == 'idx':
@@ -166,6 +178,10 @@ class CInt:
             op = e[1]
             if op in ('pre++', 'pre--', 'post++', 'post--'):
                 old = self.ev(e[2])
+                if isinstance(old, tuple) and old[0] == 'ep':
+                    new = ('ep', old[1], old[2] + (1 if '++' in op else -1))
+                    self.store(e[2], new)
+                    return new if op.startswith('pre') else old
                 new = wrap(old + (1 if '++' in op else -1), self.type_of(e[2]))
                 self.store(e[2], new)
                 return new if op.startswith('pre') else old
@@ -190,6 +206,14 @@ class CInt:
                 self.ev(e[2])
                 return self.ev(e[3])
             a, b = self.ev(e[2]), self.ev(e[3])
+            if isinstance(a, tuple) or isinstance(b, tuple):
+                if op in ('+', '-') and isinstance(a, tuple) and a[0] == 'ep' and isinstance(b, int):
+                    return ('ep', a[1], a[2] + (b if op == '+' else -b))
+                if op == '+' and isinstance(b, tuple) and b[0] == 'ep' and isinstance(a, int):
+                    return ('ep', b[1], b[2] + a)
+                if op in ('==', '!='):
+                    return int((a == b) == (op == '=='))
+                raise NoEval('%s on a pointer value' % op)
             if op in ('<', '>', '<=', '>=', '==', '!='):
                 return int({'<': a < b, '>': a > b, '<=': a <= b, '>=': a >= b, '==': a == b, '!=': a != b}[op])
             t = self.type_of(e)
@@ -233,8 +257,37 @@ class CInt:
             return v
         raise NoEval('expression %s' % ir.fmt(e)[:50])
 
+    def elem_lvalue(self, e):
+        """('elem', array, index, field|None) when e designates (a field of) an element reached through an element pointer
+        value ('ep', array, index): p->f, p[i].f, (*p).f, p[i], *p"""
+        e = ir.top_nocast(e)
+        try:
+            if e[0] == 'arrow':
+                b = self.ev(e[1])
+                if isinstance(b, tuple) and b[0] == 'ep':
+                    return ('elem', b[1], b[2], e[2])
+            elif e[0] == 'dot':
+                inner = self.elem_lvalue(e[1])
+                if inner is not None and inner[3] is None:
+                    return ('elem', inner[1], inner[2], e[2])
+            elif e[0] == 'idx':
+                b = self.ev(e[1])
+                if isinstance(b, tuple) and b[0] == 'ep':
+                    return ('elem', b[1], b[2] + self.ev(e[2]), None)
+            elif e[0] == 'un' and e[1] == '*':
+                b = self.ev(e[2])
+                if isinstance(b, tuple) and b[0] == 'ep':
+                    return ('elem', b[1], b[2], None)
+        except NoEval:
+            return None
+        return None
+
     def store(self, lhs, v):
         t = ir.top_nocast(lhs)
+        ep = self.elem_lvalue(t) if t[0] in ('arrow', 'dot', 'idx', 'un') else None
+        if ep is not None:
+            self.atoms[ep] = v
+            return
         if t[0] == 'local':
             self.locals[t[2]] = v
         elif t[0] == 'param':
